@@ -100,15 +100,35 @@ func c27Facts(r *verifh.Run) {
 	r.Fact("genesisHeaderTimestamp", blk.Tmstmp)
 }
 
+// c27Line without a rule change: the same minimum prices at every time.
 func c27Line(bp, hp, tp, fp []byte, prices [fees.FeeDimensions]uint64, allocs []c27Alloc) string {
-	var sb strings.Builder
-	fmt.Fprintf(&sb, "gen %s %s %s %s ", verifh.Hex(bp), verifh.Hex(hp), verifh.Hex(tp), verifh.Hex(fp))
-	for i, p := range prices {
-		if i > 0 {
-			sb.WriteByte(',')
-		}
-		sb.WriteString(strconv.FormatUint(p, 10))
+	return c27LineSw(bp, hp, tp, fp, prices, 0, prices, allocs)
+}
+
+// c27RF is a time-dependent rule factory: rules r1 before time sw, r2 from sw on.
+type c27RF struct {
+	sw     int64
+	r1, r2 *genesis.Rules
+}
+
+func (f *c27RF) GetRules(t int64) chain.Rules {
+	if t < f.sw {
+		return f.r1
 	}
+	return f.r2
+}
+
+func c27Dims(p [fees.FeeDimensions]uint64) string {
+	w := make([]string, len(p))
+	for i, x := range p {
+		w[i] = strconv.FormatUint(x, 10)
+	}
+	return strings.Join(w, ",")
+}
+
+func c27LineSw(bp, hp, tp, fp []byte, prices [fees.FeeDimensions]uint64, sw int64, prices2 [fees.FeeDimensions]uint64, allocs []c27Alloc) string {
+	var sb strings.Builder
+	fmt.Fprintf(&sb, "gen %s %s %s %s %s %d %s", verifh.Hex(bp), verifh.Hex(hp), verifh.Hex(tp), verifh.Hex(fp), c27Dims(prices), sw, c27Dims(prices2))
 	for _, a := range allocs {
 		fmt.Fprintf(&sb, " %s:%d", verifh.Hex(a.addr), a.bal)
 	}
@@ -144,6 +164,13 @@ func c27Generate(r *verifh.Run, h C27Handler) []string {
 		mk(c27Alloc{a, 1 << 63}, c27Alloc{b, 1<<63 - 1}, c27Alloc{c, 0}),
 		mk(c27Alloc{a, 1}, c27Alloc{b, max}, c27Alloc{c, 3}), // overflow in the middle
 		c27Line(bp, hp, tp, fp, [fees.FeeDimensions]uint64{0, 1, max, 1 << 63, 256}, []c27Alloc{{a, 1}}),
+		// time-dependent rule factory: the minimum prices change at time sw
+		c27LineSw(bp, hp, tp, fp, def, 1, [fees.FeeDimensions]uint64{7, 7, 7, 7, 7}, []c27Alloc{{a, 1}}),
+		c27LineSw(bp, hp, tp, fp, def, 1000, [fees.FeeDimensions]uint64{1, 2, 3, 4, 5}, []c27Alloc{{a, 1}}),
+		c27LineSw(bp, hp, tp, fp, def, 1672531200000, [fees.FeeDimensions]uint64{1, 2, 3, 4, 5}, nil),
+		c27LineSw(bp, hp, tp, fp, def, 1672531200001, [fees.FeeDimensions]uint64{1, 2, 3, 4, 5}, nil),
+		c27LineSw(bp, hp, tp, fp, def, 0, [fees.FeeDimensions]uint64{1, 2, 3, 4, 5}, nil),
+		c27LineSw(bp, hp, tp, fp, def, -5, [fees.FeeDimensions]uint64{1, 2, 3, 4, 5}, nil),
 		// conflicting prefixes (tie only): balance prefix = height prefix, timestamp = height,
 		// and a metadata key equal to a balance key
 		c27Line([]byte{0}, hp, tp, fp, def, []c27Alloc{{a, 9}}),
@@ -209,6 +236,15 @@ func c27Generate(r *verifh.Run, h C27Handler) []string {
 			}
 			xbp, xhp, xtp, xfp = rp(), rp(), rp(), rp()
 		}
+		if r.RNG.Chance(40) {
+			pr2 := pr
+			for d := range pr2 {
+				pr2[d] = r.RNG.Pick64()
+			}
+			sws := []int64{-1, 0, 1, 1000, 1_000_000_000_000, 1672531199999, 1672531200000, 1672531200001, 1 << 62}
+			lines = append(lines, c27LineSw(xbp, xhp, xtp, xfp, pr, sws[r.RNG.Intn(len(sws))], pr2, as))
+			continue
+		}
 		lines = append(lines, c27Line(xbp, xhp, xtp, xfp, pr, as))
 	}
 	if h.Fixed != nil { // only lines this handler can run
@@ -223,9 +259,9 @@ func c27Generate(r *verifh.Run, h C27Handler) []string {
 	return lines
 }
 
-func c27Parse(l string) (bp, hp, tp, fp []byte, prices [fees.FeeDimensions]uint64, allocs []c27Alloc, ok bool) {
+func c27Parse(l string) (bp, hp, tp, fp []byte, prices [fees.FeeDimensions]uint64, sw int64, prices2 [fees.FeeDimensions]uint64, allocs []c27Alloc, ok bool) {
 	f := verifh.Fields(l)
-	if len(f) < 6 || f[0] != "gen" {
+	if len(f) < 8 || f[0] != "gen" {
 		return
 	}
 	var err error
@@ -235,16 +271,27 @@ func c27Parse(l string) (bp, hp, tp, fp []byte, prices [fees.FeeDimensions]uint6
 			return
 		}
 	}
-	ps := strings.Split(f[5], ",")
-	if len(ps) != fees.FeeDimensions {
-		return
-	}
-	for i, p := range ps {
-		if prices[i], err = strconv.ParseUint(p, 10, 64); err != nil {
+	for k, field := range []string{f[5], f[7]} {
+		ps := strings.Split(field, ",")
+		if len(ps) != fees.FeeDimensions {
 			return
 		}
+		for i, p := range ps {
+			v, perr := strconv.ParseUint(p, 10, 64)
+			if perr != nil {
+				return
+			}
+			if k == 0 {
+				prices[i] = v
+			} else {
+				prices2[i] = v
+			}
+		}
 	}
-	for _, w := range f[6:] {
+	if sw, err = strconv.ParseInt(f[6], 10, 64); err != nil {
+		return
+	}
+	for _, w := range f[8:] {
 		ab := strings.Split(w, ":")
 		if len(ab) != 2 {
 			return
@@ -259,13 +306,13 @@ func c27Parse(l string) (bp, hp, tp, fp []byte, prices [fees.FeeDimensions]uint6
 		}
 		allocs = append(allocs, c27Alloc{addr, bal})
 	}
-	return pf[0], pf[1], pf[2], pf[3], prices, allocs, true
+	return pf[0], pf[1], pf[2], pf[3], prices, sw, prices2, allocs, true
 }
 
 type c27KV struct{ k, v []byte }
 
 func c27Exec(r *verifh.Run, l string, h C27Handler) {
-	bp, hp, tp, fp, prices, allocs, ok := c27Parse(l)
+	bp, hp, tp, fp, prices1, sw, prices2, allocs, ok := c27Parse(l)
 	if !ok {
 		r.Emit(l, "bad-op")
 		return
@@ -275,7 +322,16 @@ func c27Exec(r *verifh.Run, l string, h C27Handler) {
 	}
 	ctx := context.Background()
 	rules := genesis.NewDefaultRules()
-	rules.MinUnitPrice = prices
+	rules.MinUnitPrice = prices1
+	rules2 := genesis.NewDefaultRules()
+	rules2.MinUnitPrice = prices2
+	rf := &c27RF{sw: sw, r1: rules, r2: rules2}
+	// the property's "minimum prices" are those of the rules in force at the genesis *state*
+	// timestamp 0 (the reading the unchanged code implements: ruleFactory.GetRules(0))
+	prices := rf.GetRules(0).GetMinUnitPrice()
+	if prices1 != prices2 {
+		r.Count("rule-change:" + c27SwClass(sw))
+	}
 	g := genesis.NewDefaultGenesis(nil)
 	g.Rules = rules
 	for _, a := range allocs {
@@ -284,7 +340,7 @@ func c27Exec(r *verifh.Run, l string, h C27Handler) {
 	mm := metadata.NewManager(hp, fp, tp)
 	bh, keyOf := h.New(bp)
 	db := c27NewDB()
-	blk, view, err := chain.NewGenesisCommit(ctx, db, g, mm, bh, &genesis.ImmutableRuleFactory{Rules: rules}, trace.Noop, logging.NoLog{})
+	blk, view, err := chain.NewGenesisCommit(ctx, db, g, mm, bh, rf, trace.Noop, logging.NoLog{})
 
 	// the same genesis value must give the same chain every time it is used: (1) the object
 	// is not altered by InitializeState, (2) a second initialisation of the SAME object on a
@@ -299,13 +355,13 @@ func c27Exec(r *verifh.Run, l string, h C27Handler) {
 	for _, a := range allocs {
 		pristine.CustomAllocation = append(pristine.CustomAllocation, &genesis.CustomAllocation{Address: codec.Address(a.addr), Balance: a.bal})
 	}
-	fpRef := c27Fingerprint(pristine, mm, bh, rules)
-	fpAgain := c27Fingerprint(g, mm, bh, rules)
+	fpRef := c27Fingerprint(pristine, mm, bh, rf)
+	fpAgain := c27Fingerprint(g, mm, bh, rf)
 	fpJSON := "json-error"
 	if raw, jerr := json.Marshal(g); jerr == nil {
 		g3 := &genesis.DefaultGenesis{}
 		if jerr = json.Unmarshal(raw, g3); jerr == nil && g3.Rules != nil {
-			fpJSON = c27Fingerprint(g3, mm, bh, g3.Rules)
+			fpJSON = c27Fingerprint(g3, mm, bh, rf)
 		}
 	}
 	same := func(a string) string {
@@ -456,15 +512,15 @@ func c27Exec(r *verifh.Run, l string, h C27Handler) {
 		okFee = okFee && fm.UnitPrice(d) == prices[d] && fm.LastConsumed(d) == 0 && fm.Window(d) == window.Window{}
 	}
 	if !okFee {
-		r.Violation("wrong-fee-state", "fee manager %x does not hold min prices %v with zero window/consumption", feeRaw, prices)
+		r.Violation("wrong-fee-state", "fee manager %x does not hold the min prices %v of the rules at time 0 with zero window/consumption (rules: %v before %d, %v after)", feeRaw, prices, prices1, sw, prices2)
 	}
 }
 
 // c27Fingerprint initialises g on a fresh database and renders error class / root / full state.
-func c27Fingerprint(g *genesis.DefaultGenesis, mm metadata.MetadataManager, bh chain.BalanceHandler, rules *genesis.Rules) string {
+func c27Fingerprint(g *genesis.DefaultGenesis, mm metadata.MetadataManager, bh chain.BalanceHandler, rf chain.RuleFactory) string {
 	ctx := context.Background()
 	db := c27NewDB()
-	blk, view, err := chain.NewGenesisCommit(ctx, db, g, mm, bh, &genesis.ImmutableRuleFactory{Rules: rules}, trace.Noop, logging.NoLog{})
+	blk, view, err := chain.NewGenesisCommit(ctx, db, g, mm, bh, rf, trace.Noop, logging.NoLog{})
 	if err != nil {
 		switch {
 		case errors.Is(err, safemath.ErrOverflow):
@@ -485,6 +541,18 @@ func c27Fingerprint(g *genesis.DefaultGenesis, mm metadata.MetadataManager, bh c
 	it.Release()
 	sort.Strings(ents)
 	return fmt.Sprintf("root=%s hdr=%d:%d:%d %s", blk.StateRoot, blk.Hght, blk.Tmstmp, len(blk.Txs), strings.Join(ents, " "))
+}
+
+func c27SwClass(sw int64) string {
+	const hdr = 1672531200000
+	switch {
+	case sw <= 0:
+		return "at-or-before-0"
+	case sw <= hdr:
+		return "in-(0,header-ts]"
+	default:
+		return "after-header-ts"
+	}
 }
 
 func c27HasZero(as []c27Alloc) bool {
